@@ -10,6 +10,8 @@ import OmplModel.Proofs.PhsOrdered
 import OmplModel.Proofs.PhsNonvac
 import OmplModel.Proofs.PhsEdge
 import OmplModel.Proofs.PhsFixed
+import OmplModel.Proofs.PhsRound10
+import OmplModel.Proofs.PhsUniform
 /-!
 # C15 — informed sampling returns only, and all of, the states that can still help
 
@@ -650,6 +652,174 @@ theorem direct_sampler_success_cost_below {ρ : Type} (s : Sampler ℝ) (inB : L
     (∃ h, (s.updateF c).hcost (s.sample2F inB true c ds cur).2.st.1 = some h ∧ h < c) ∧
     (∃ h', s.hcostF (s.sample2F inB true c ds cur).2.st.1 = some h' ∧ h' < c) :=
   PhsFixed.direct_successF_cost_below s inB c ds cur hbase hall hf
+
+
+/-! ## Round 10: the glue around the core — constructor classification, `createFullState` / `getInformedSubstate`, PHS order;
+the diameter invariant of `updatePhsDefinitions` established from the code -/
+
+/-- **Current code over ℝ with NO hypothesis on the PHS list** (`direct_sampler_success_cost_below` assumed `hall`: every PHS
+of the updated list has diameter `c`; here it is DERIVED: `updLoop` sets every kept PHS to `c`, and the only other outcome —
+the degenerate single PHS — makes the call return `false`): a successful finite-bound `sampleUniform(state, maxCost)` yields a
+state in bounds, inside a PHS of the working list, with heuristic cost `< maxCost` for the working list AND for all pairs. -/
+theorem direct_sampler_success_cost_below_unconditional {ρ : Type} (s : Sampler ℝ) (inB : List ℝ × ρ → Bool) (c : ℝ)
+    (ds : List (Draw ℝ ρ)) (cur : List ℝ × ρ)
+    (hbase : ∀ d ∈ ds, inB (d.baseInf, d.baseRest) = true)
+    (hf : (s.sample2F inB true c ds cur).2.found = true) :
+    inB (s.sample2F inB true c ds cur).2.st = true ∧
+    (s.updateF c).isInAny (s.sample2F inB true c ds cur).2.st.1 = true ∧
+    (∃ h, (s.updateF c).hcost (s.sample2F inB true c ds cur).2.st.1 = some h ∧ h < c) ∧
+    (∃ h', s.hcostF (s.sample2F inB true c ds cur).2.st.1 = some h' ∧ h' < c) :=
+  PhsRound10.direct_successF_cost_below_unconditional s inB c ds cur hbase hf
+
+/-- the invariant itself [AF, every `Num α` incl. `Float`]: after `updatePhsDefinitions(c)` every PHS of the working list has
+transverse diameter `c`, or the list is the single degenerate PHS that cannot improve on `c` (then the sampler returns false) -/
+theorem update_sets_every_diameter {α : Type} [Num α] (s : Sampler α) (c : α) :
+    (∀ q ∈ (s.updateF c).phss, q.c = c) ∨ (s.updateF c).cannotImprove c = true :=
+  PhsRound10.update_c_or_cannotImprove s.restored c
+
+/-- non-vacuity: the first alternative is realised by the concrete successful run of `PhsNonvac` (premise `hf` holds) -/
+example : (PhsNonvac.exSampler.sample2 (fun _ => true) true 10 [PhsNonvac.exDraw] (([] : List ℝ), ())).2.found = true :=
+  PhsNonvac.ex_success
+
+/-- **The constructors accept only well-formed problems, and what the classification returns** [no arithmetic]: a
+`PathLengthDirectInfSampler` is constructed only with an optimization objective, ≥ 1 start, a sampleable goal with ≥ 1 state and
+a space that is (a) non-compound of type RealVector / Unknown, or (b) a genuine `CompoundStateSpace` object whose type is
+SE2 / SE3 / Dubins / ReedsShepp with exactly two subspaces, none of them foreign — then the informed and the uninformed index
+are two DIFFERENT valid indices — or (c) any other compound type with exactly one real-vector subspace — then, as coded, BOTH
+indices are 0 (`inf = un ↔ ¬ isSE`: the seed of F450). -/
+theorem ctor_accepts_only (i : CtorIn) (L : Layout) (h : ctorCheck i = .ok L) :
+    (i.hasObjective = true ∧ 0 < i.numStarts ∧ i.goalSampleable = true ∧ 0 < i.numGoals) ∧
+    L.compound = i.space.compound ∧
+    (i.space.compound = false → (i.space.ty = .realVector ∨ i.space.ty = .unknown) ∧ L.inf = 0 ∧ L.un = 0) ∧
+    (i.space.compound = true → i.space.castOk = true ∧ L.inf < i.space.subs.length ∧ L.un < i.space.subs.length ∧
+      (L.inf = L.un ↔ i.space.ty.isSE = false) ∧ (i.space.ty.isSE = false → i.space.subs = [.rv]) ∧
+      (i.space.ty.isSE = true → i.space.subs.length = 2 ∧ ∀ t ∈ i.space.subs, t ≠ .other)) := by
+  obtain ⟨h1, h2, h3, h4, h5⟩ := PhsRound10.ctorCheck_ok i L h
+  exact ⟨⟨h1, h2, h3, h4⟩, PhsRound10.classify_ok i.space L h5⟩
+
+/-- SE(2)/SE(3)-type spaces, BOTH subspace orders: the informed index is where the real-vector subspace is, the uninformed one
+where the rotation is (the library's own classes have the order (R^n, SO(n)); the check also drives the swapped order). -/
+theorem classify_se_either_order (ty : SpType) (hty : ty.isSE = true) (rot : SubType) (hrot : rot = .so2 ∨ rot = .so3) :
+    classify ⟨true, true, ty, [.rv, rot]⟩ = .ok ⟨true, 0, 1⟩ ∧ classify ⟨true, true, ty, [rot, .rv]⟩ = .ok ⟨true, 1, 0⟩ := by
+  rcases hrot with rfl | rfl <;> cases ty <;> simp [SpType.isSE] at hty <;> exact ⟨rfl, rfl⟩
+
+/-- non-vacuity: an accepted problem on SE(2) -/
+example : ctorCheck ⟨true, 1, true, 2, ⟨true, true, .se2, [.rv, .so2]⟩⟩ = .ok ⟨true, 0, 1⟩ := rfl
+
+/-- **The state returned carries the vector that was tested** — AS CODED this is only true when the space is not compound or the
+two indices differ (`_partial`; the full statement "for every layout the constructor can return" is FALSE for the unchanged code,
+see `single_subspace_compound_overwritten_fails`): `getInformedSubstate(createFullState(st, v, r)) = v`, and the uninformed
+component holds the uninformed draw `r`.  Since `isInAnyPhs`, `keepSample` are evaluated on `v` and `heuristicSolnCost` on
+`getInformedSubstate(state)`, this is what transfers `DirectOk` / "cost < c" from the tested vector to the returned STATE. -/
+theorem created_state_carries_tested_vector_partial {α : Type} (L : Layout) (st : FullState α) (v r : List α)
+    (hne : L.compound = false ∨ L.inf ≠ L.un)
+    (hshape : L.compound = true → ∃ cs, st = .comp cs ∧ L.inf < cs.length ∧ L.un < cs.length) :
+    L.informedSubstate (L.createFullState st v r) = v ∧
+    (L.compound = true → ∃ cs', L.createFullState st v r = .comp cs' ∧ cs'[L.un]? = some r) := by
+  refine ⟨PhsRound10.createFullState_roundtrip L st v r hne (fun hc => ?_), fun hc => ?_⟩
+  · obtain ⟨cs, e, h1, _⟩ := hshape hc
+    exact ⟨cs, e, h1⟩
+  · obtain ⟨cs, e, _, h2⟩ := hshape hc
+    subst e
+    exact PhsRound10.createFullState_uninformed L cs v r hc h2
+
+/-- non-vacuity: SE(2) layout, a two-component state -/
+example : (⟨true, 0, 1⟩ : Layout).informedSubstate ((⟨true, 0, 1⟩ : Layout).createFullState (.comp [[0, 0], [0]]) [1, 2] [(3 : Nat)])
+    = [1, 2] := rfl
+
+/-- **Finding F450 (unchanged code)**: the constructor ACCEPTS a compound space with one real-vector subspace and returns
+`informedIdx_ = uninformedIdx_ = 0` with an uninformed part; `createFullState` then leaves the UNINFORMED draw `r` — a uniform
+sample of the whole subspace — in the informed component, whatever vector `v` was tested (in a PHS, kept, in bounds), and
+`getInformedMeasure` multiplies by the subspace measure.  So the full version of `created_state_carries_tested_vector_partial`
+fails for a layout the constructor returns, for every `v ≠ r`. -/
+theorem single_subspace_compound_overwritten_fails {α : Type} (old v r : List α) (m : Nat → α) :
+    ctorCheck ⟨true, 1, true, 1, ⟨true, true, .unknown, [.rv]⟩⟩ = .ok ⟨true, 0, 0⟩ ∧
+    (⟨true, 0, 0⟩ : Layout).informedSubstate ((⟨true, 0, 0⟩ : Layout).createFullState (.comp [old]) v r) = r ∧
+    (v ≠ r → (⟨true, 0, 0⟩ : Layout).informedSubstate ((⟨true, 0, 0⟩ : Layout).createFullState (.comp [old]) v r) ≠ v) ∧
+    (⟨true, 0, 0⟩ : Layout).unMeasureG false m = some (m 0) := by
+  have h := PhsRound10.createFullState_overwritten 0 [old] v r (by simp)
+  exact ⟨rfl, h, fun hne => by rw [h]; exact fun e => hne e.symm, rfl⟩
+
+/-- **The repaired glue (notes/C15-fix-F450.diff) is sound for EVERY accepted space**: whatever layout the classification
+returns, the returned state's informed part is the tested vector; an uninformed part exists exactly when the indices differ
+(so the single-subspace compound space gets no extra measure factor). -/
+theorem created_state_roundtrip_repaired {α : Type} (d : SpaceDesc) (L : Layout) (hL : classify d = .ok L)
+    (st : FullState α) (v r : List α)
+    (hshape : L.compound = true → ∃ cs, st = .comp cs ∧ cs.length = d.subs.length) (m : Nat → α) :
+    L.informedSubstate (L.createFullStateFixed st v r) = v ∧
+    (L.hasUninformedG true = true ↔ L.compound = true ∧ L.inf ≠ L.un) ∧
+    (L.unMeasureG true m = none ↔ (L.compound = false ∨ L.inf = L.un)) := by
+  obtain ⟨hcmp, _, hcomp⟩ := PhsRound10.classify_ok d L hL
+  refine ⟨PhsRound10.createFullStateFixed_roundtrip L st v r (fun hc => ?_), ?_, ?_⟩
+  · obtain ⟨cs, e, hlen⟩ := hshape hc
+    obtain ⟨_, hi, _⟩ := hcomp (hcmp ▸ hc)
+    exact ⟨cs, e, hlen ▸ hi⟩
+  · simp [Layout.hasUninformedG]
+  · cases hc : L.compound <;> by_cases he : L.inf = L.un <;> simp [Layout.unMeasureG, Layout.hasUninformedG, hc, he]
+
+/-- non-vacuity: the repaired glue on the single-subspace compound space keeps the tested vector -/
+example : (⟨true, 0, 0⟩ : Layout).informedSubstate ((⟨true, 0, 0⟩ : Layout).createFullStateFixed (.comp [[0, 0]]) [1, 2] [(3 : Nat), 4])
+    = [1, 2] := rfl
+
+/-- with a sound glue (`view = fst`: the returned state's informed part is the tested vector) the three-argument form with the
+glue made explicit IS the `sample3G` all earlier theorems are about -/
+theorem three_arg_with_sound_glue {α : Type} [Num α] {ρ : Type} (restore degfix : Bool) (s : Sampler α)
+    (inB : List α × ρ → Bool) (fin : Bool) (minC c : α) (ds : List (Draw α ρ)) (cur : List α × ρ) :
+    s.sample3GV (fun st => st.1) restore degfix inB fin minC c ds cur = s.sample3G restore degfix inB fin minC c ds cur := rfl
+
+/-- **Order of the PHS list** (`listPhsPtrs_`, start-major): there are `|starts|·|goals|` PHSs and number `i·|goals| + j` has
+foci (start `i`, goal `j`) — the indexing `k / |goals|`, `k % |goals|` the harness and the check use to pair each internal PHS
+with its rotation and foci. -/
+theorem phs_list_order {β : Type} (starts goals : List β) :
+    (phsPairs starts goals).length = starts.length * goals.length ∧
+    ∀ i j (hi : i < starts.length) (hj : j < goals.length),
+      (phsPairs starts goals)[i * goals.length + j]? = some (starts[i], goals[j]) := by
+  refine ⟨PhsRound10.phsPairs_length starts goals, fun i j hi hj => ?_⟩
+  rw [PhsRound10.phsPairs_getElem? goals starts i j hi hj]
+  simp [hi, hj]
+
+/-- **"Samples are uniformly distributed over the region"** — measure-theoretic form, every dimension `n+1`: the PHS map
+`T w = centre + L w` (`L` = the ONE linear map `R·diag(c/2, r, …, r)` of `transform_affine`, `det L = (c/2)·rⁿ ≠ 0`) carries the
+normalised Lebesgue measure of the open unit ball to the normalised Lebesgue measure of the informed set: for EVERY set `A` of
+states, `P(T(w) ∈ A) = vol(A ∩ PHS) / vol(PHS)` when `w` is uniform in the ball — stated cross-multiplied (no division in
+`ℝ≥0∞`): `vol(T⁻¹A ∩ ball) · vol(PHS) = vol(A ∩ PHS) · vol(ball)`.  Together with `phs_region_exact` (image = the open PHS)
+and `overlap_rejection_uniform` (the 1/k rule across overlapping PHSs) this is the uniformity clause for the construction;
+what stays outside is that the RNG's ball points ARE uniform (`uniformInBall_radius_law_partial`, C20). -/
+theorem phs_sampling_uniform (n : ℕ) (F1 F2 : EuclideanSpace ℝ (Fin (n + 1))) (hne : F1 ≠ F2) (c : ℝ)
+    (hc : ‖F2 - F1‖ < c) (A : Set (EuclideanSpace ℝ (Fin (n + 1)))) :
+    MeasureTheory.volume ((fun w => (1 / 2 : ℝ) • (F1 + F2)
+        + PhsVolume.imgL (c / 2) (Real.sqrt (c ^ 2 - ‖F2 - F1‖ ^ 2) / 2) ((1 / ‖F2 - F1‖) • (F2 - F1)) w) ⁻¹' A
+          ∩ Metric.ball 0 1)
+      * MeasureTheory.volume {x : EuclideanSpace ℝ (Fin (n + 1)) | ‖x - F1‖ + ‖x - F2‖ < c}
+    = MeasureTheory.volume (A ∩ {x : EuclideanSpace ℝ (Fin (n + 1)) | ‖x - F1‖ + ‖x - F2‖ < c})
+      * MeasureTheory.volume (Metric.ball (0 : EuclideanSpace ℝ (Fin (n + 1))) 1) :=
+  PhsUniform.phs_pushforward_uniform n F1 F2 hne c hc A
+
+/-- non-vacuity: distinct foci and a bound above the focal distance exist in every dimension (here `n+1 = 2`, foci (0,0) and (1,0), c = 2) -/
+example : ∃ (F1 F2 : EuclideanSpace ℝ (Fin 2)) (c : ℝ), F1 ≠ F2 ∧ ‖F2 - F1‖ < c := by
+  refine ⟨0, EuclideanSpace.single 0 1, 2, ?_, ?_⟩
+  · intro h
+    have h1 : ‖EuclideanSpace.single (0 : Fin 2) (1 : ℝ)‖ = 1 := by rw [EuclideanSpace.norm_single]; exact norm_one
+    rw [← h, norm_zero] at h1
+    exact zero_ne_one h1
+  · rw [sub_zero, EuclideanSpace.norm_single, norm_one]; exact one_lt_two
+
+/-- **Radius law of `RNG::uniformInBall`** (`radiusScale = r · pow(u, 1/n)`, model `uniformInBall`) — `_partial`.
+FULL CLAUSE (not proved): if `dir` is uniform on the unit sphere of ℝⁿ and `u` is uniform on `[0,1]`, independent, then
+`pow(u, 1/n) · dir` is uniformly distributed in the unit ball.  PROVED PART, every dimension `n+1`: the radial marginal is
+right — for `0 ≤ t ≤ 1` the draws `u ∈ [0,1]` with `u^(1/(n+1)) ≤ t` are exactly `[0, t^(n+1)]`, of Lebesgue measure
+`t^(n+1) = vol(ball t) / vol(ball 1)`, i.e. `P(‖point‖ ≤ t)` of a uniform point.  MISSING: the polar decomposition of Lebesgue
+measure (radius and direction independent, direction uniform — Mathlib's `Measure.toSphere`), and that boost's
+`uniform_on_sphere` / mt19937 deliver those laws (property C20). -/
+theorem uniformInBall_radius_law_partial (n : ℕ) (t : ℝ) (h0 : 0 ≤ t) (h1 : t ≤ 1) :
+    {u : ℝ | 0 ≤ u ∧ u ≤ 1 ∧ u ^ ((1 : ℝ) / ((n : ℝ) + 1)) ≤ t} = Set.Icc 0 (t ^ (n + 1)) ∧
+    MeasureTheory.volume {u : ℝ | 0 ≤ u ∧ u ≤ 1 ∧ u ^ ((1 : ℝ) / ((n : ℝ) + 1)) ≤ t} = ENNReal.ofReal (t ^ (n + 1)) ∧
+    MeasureTheory.volume (Metric.ball (0 : EuclideanSpace ℝ (Fin (n + 1))) t)
+      = ENNReal.ofReal (t ^ (n + 1)) * MeasureTheory.volume (Metric.ball (0 : EuclideanSpace ℝ (Fin (n + 1))) 1) :=
+  PhsUniform.radius_law n t h0 h1
+
+/-- non-vacuity: `t = 1/2` -/
+example : (0 : ℝ) ≤ 1 / 2 ∧ (1 / 2 : ℝ) ≤ 1 := by norm_num
 
 /-! ## Non-vacuity of the geometric hypotheses -/
 
